@@ -68,7 +68,7 @@ package layer2
 //@ func (*Announce).SetBalancer
 //@   requires AnnInv(a) && lockstate(a.RWMutex) == 0 && ValidIP(adv.ip)
 //@   ensures [refcnt] forall x string :: a.ipRefcnt[x] == old(a.ipRefcnt[x]) + ite(x == net.ipstr(adv.ip) && !old(HasStr(a, name, x)), 1, 0)
-//@   ensures [inv] AnnInv(a) && lockstate(a.RWMutex) == 0
+//@   ensures [inv] AnnInv(a) && lockstate(a.RWMutex) == 0 && lockframe(a.RWMutex)
 //@   ensures [has] exists k int :: Entry(a, name, k) && a.ips[name][k] == adv
 //@   ensures [kept] forall k int :: old(Entry(a, name, k)) ==> Entry(a, name, k) &&
 //@       a.ips[name][k] == ite(old(a.ips[name][k].ip.Equal(adv.ip)) && (forall j int :: 0 <= j && j < k ==> !old(a.ips[name][j].ip.Equal(adv.ip))), adv, old(a.ips[name][k]))
@@ -89,7 +89,7 @@ package layer2
 //@ pred AnswersExcept(a *Announce, ip net.IP, intf string, name string) := exists s string, k int :: s != name && Entry(a, s, k) && a.ips[s][k].ip.Equal(ip) && Covers(a.ips[s][k], intf)
 //@ func (*Announce).DeleteBalancer
 //@   requires AnnInv(a) && lockstate(a.RWMutex) == 0
-//@   ensures [inv] AnnInv(a) && lockstate(a.RWMutex) == 0
+//@   ensures [inv] AnnInv(a) && lockstate(a.RWMutex) == 0 && lockframe(a.RWMutex)
 //@   ensures [gone] !(name in a.ips)
 //@   ensures [exact] forall ip net.IP, intf string :: Answers(a, ip, intf) == old(AnswersExcept(a, ip, intf, name))
 //@   ensures [refcnt] forall x string :: a.ipRefcnt[x] == old(a.ipRefcnt[x]) - ite(old(HasStr(a, name, x)), 1, 0)
@@ -167,3 +167,15 @@ package layer2
 //@ func (*ndpResponder).processRequest
 //@   abstract
 //@   assert before advertise: [announced] reason == dropReasonNone
+
+// NewIPAdvertisement: the three fields as given
+//@ func NewIPAdvertisement
+//@   ensures sameSlice(result.ip, ip) && result.allInterfaces == allInterfaces && result.interfaces == interfaces
+//@   modifies nothing
+// MatchInterfaces: the advertisement covers at least one of the given interfaces
+//@ func (*IPAdvertisement).MatchInterfaces
+//@   requires i != nil
+//@   ensures result == (i.allInterfaces || (exists k int :: 0 <= k && k < len(intfs) && Covers(*i, intfs[k])))
+//@   modifies nothing
+//@   loop 1 binds intf
+//@   loop 1 invariant !i.allInterfaces && (forall k int :: 0 <= k && k < iter ==> !Covers(*i, intfs[k]))
